@@ -10,8 +10,47 @@ import (
 	"github.com/polynetwork/poly/core/store/leveldbstore"
 	"github.com/polynetwork/poly/core/store/overlaydb"
 	"github.com/polynetwork/poly/native/storage"
+	"github.com/syndtr/goleveldb/leveldb/util"
 	"polyverif/internal/hx"
 )
+
+// faultIter wraps a store iterator and starts failing at its failAt-th positioning call (0 = never).
+type faultIter struct {
+	scom.StoreIterator
+	calls, failAt int
+	err           error
+}
+
+var errInjected = fmt.Errorf("injected iterator failure")
+
+func (it *faultIter) step(f func() bool) bool {
+	it.calls++
+	if it.failAt != 0 && it.calls >= it.failAt {
+		it.err = errInjected
+		return false
+	}
+	return f()
+}
+func (it *faultIter) First() bool { return it.step(it.StoreIterator.First) }
+func (it *faultIter) Next() bool  { return it.step(it.StoreIterator.Next) }
+func (it *faultIter) Key() []byte {
+	if it.err != nil {
+		return nil
+	}
+	return it.StoreIterator.Key()
+}
+func (it *faultIter) Value() []byte {
+	if it.err != nil {
+		return nil
+	}
+	return it.StoreIterator.Value()
+}
+func (it *faultIter) Error() error {
+	if it.err != nil {
+		return it.err
+	}
+	return it.StoreIterator.Error()
+}
 
 // Family layers (C10): a real LevelDBStore (goleveldb over in-memory storage) + OverlayDB + CacheDB against the
 // model (drv_kv layers) and against three plain Go maps.
@@ -26,6 +65,9 @@ type layersFam struct {
 	rs    map[string][]byte // reference: store contents
 	ro    map[string][]byte // reference: overlay writes (empty = tombstone)
 	rc    map[string][]byte // reference: cache writes, keys WITH the ST_STORAGE prefix
+	oj    scom.StoreIterator // open OverlayDB iterator stepped between writes (ojopen/ojfirst/ojnext)
+	cj    scom.StoreIterator // open CacheDB iterator stepped between writes
+	ojLast, cjLast []byte    // last key yielded with true since the last First (nil = none)
 	nCases int
 }
 
@@ -62,6 +104,46 @@ func (f *layersFam) Reset(r *hx.Run) {
 		f.cache.Reset()
 	}
 	f.rs, f.ro, f.rc = map[string][]byte{}, map[string][]byte{}, map[string][]byte{}
+	f.closeLive()
+}
+
+func (f *layersFam) closeLive() {
+	if f.oj != nil {
+		f.oj.Release()
+		f.oj = nil
+	}
+	if f.cj != nil {
+		f.cj.Release()
+		f.cj = nil
+	}
+	f.ojLast, f.cjLast = nil, nil
+}
+
+// liveStep performs First/Next on an iterator that stays open across writes and checks that yielded keys
+// strictly increase after a First (the join never goes back, whatever is written in between).
+func (f *layersFam) liveStep(r *hx.Run, it scom.StoreIterator, last *[]byte, first bool, what string) string {
+	if it == nil {
+		return "closed"
+	}
+	var ok bool
+	if first {
+		ok = it.First()
+		*last = nil
+	} else {
+		ok = it.Next()
+	}
+	if ok {
+		k := append([]byte{}, it.Key()...)
+		if len(it.Value()) == 0 {
+			r.Viol("C10:live-iterator-yields-empty-value:"+what, fmt.Sprintf("%s iterator yielded key %x with an empty value", what, k))
+		}
+		if !first && *last != nil && bytes.Compare(*last, k) >= 0 {
+			r.Viol("C10:live-iterator-goes-back:"+what, fmt.Sprintf("%s iterator yielded %x after %x", what, k, *last))
+		}
+		*last = k
+		return fmt.Sprintf("t %s %s", hx.Hex(it.Key()), hx.Hex(it.Value()))
+	}
+	return fmt.Sprintf("f %s %s", hx.Hex(it.Key()), hx.Hex(it.Value()))
 }
 
 func collectIter(it scom.StoreIterator) []kv {
@@ -225,7 +307,79 @@ func (f *layersFam) Exec(r *hx.Run, op []string) string {
 	case "ocommitnobatch":
 		f.ov.CommitTo() // panics (nil batch) unless the buffer is empty
 		return "ok"
+	case "ofail":
+		// JoinIter over the overlay buffer and a store iterator that fails at its k-th positioning call
+		p := hx.UnHex(op[1])
+		var k int
+		fmt.Sscan(op[2], &k)
+		back := &faultIter{StoreIterator: f.store.NewIterator(p), failAt: k}
+		it := overlaydb.NewJoinIter(f.ov.GetWriteSet().NewIterator(util.BytesPrefix(p)), back)
+		var parts []string
+		var yields []kv
+		failed, plain := false, true
+		for i, c := range op[3] {
+			var ok bool
+			if c == 'F' {
+				ok = it.First()
+			} else {
+				ok = it.Next()
+			}
+			if (i == 0) != (c == 'F') {
+				plain = false
+			}
+			e := "-"
+			if it.Error() != nil {
+				e = "E"
+			}
+			if ok && e == "E" {
+				r.Viol("C10:join-yields-with-error-set", fmt.Sprintf("JoinIter returned true at step %d while Error() is non-nil", i))
+			}
+			if failed && (ok || e != "E") {
+				r.Viol("C10:join-continues-after-iterator-error", fmt.Sprintf("after a sub-iterator failed, step %d returned %v / Error()=%s", i, ok, e))
+			}
+			if e == "E" {
+				failed = true
+			}
+			if ok {
+				yields = append(yields, kv{append([]byte{}, it.Key()...), append([]byte{}, it.Value()...)})
+			}
+			b := "f"
+			if ok {
+				b = "t"
+			}
+			parts = append(parts, fmt.Sprintf("%s %s %s %s", b, hx.Hex(it.Key()), hx.Hex(it.Value()), e))
+		}
+		it.Release()
+		if plain {
+			want := refScan(p, func(k string) []byte { return f.refOv(k) }, f.ro, f.rs)
+			if len(yields) > len(want) || !sameKVs(yields, want[:len(yields)]) {
+				r.Viol("C10:join-error-scan-not-a-prefix", fmt.Sprintf("scan with a failing store iterator yields %s, the full scan is %s", showKVs(yields), showKVs(want)))
+			}
+			if !failed && len(op[3]) > len(want)+1 && len(yields) != len(want) {
+				r.Viol("C10:join-scan-incomplete-without-error", "scan stopped early although no iterator reported an error")
+			}
+		}
+		return strings.Join(parts, " | ")
+	case "ojopen":
+		if f.oj != nil {
+			f.oj.Release()
+		}
+		f.oj = f.ov.NewIterator(hx.UnHex(op[1]))
+		f.ojLast = nil
+		return "ok"
+	case "ojfirst", "ojnext":
+		return f.liveStep(r, f.oj, &f.ojLast, op[0] == "ojfirst", "overlay")
+	case "cjopen":
+		if f.cj != nil {
+			f.cj.Release()
+		}
+		f.cj = f.cache.NewIterator(hx.UnHex(op[1]))
+		f.cjLast = nil
+		return "ok"
+	case "cjfirst", "cjnext":
+		return f.liveStep(r, f.cj, &f.cjLast, op[0] == "cjfirst", "cache")
 	case "oreset":
+		f.closeLive() // Reset truncates the arenas under an open iterator: not a supported use
 		f.ov.Reset()
 		f.ro = map[string][]byte{}
 		return "ok"
@@ -271,6 +425,10 @@ func (f *layersFam) Exec(r *hx.Run, op []string) string {
 		}
 		return "ok"
 	case "creset":
+		if f.cj != nil {
+			f.cj.Release()
+			f.cj = nil
+		}
 		f.cache.Reset()
 		f.rc = map[string][]byte{}
 		return "ok"
@@ -313,7 +471,8 @@ func (f *layersFam) Gen(r *hx.Run) {
 	r.Rule("(a) every assignment of {absent,value} in the store x {unknown,tombstone,value} in the overlay buffer to 4 keys under one prefix, scanned and read through both layers; " +
 		"(b) the same with the cache layer added over 3 keys (all 18^3 in the thorough tier, a sample in quick); " +
 		"(c) random sequences of store/overlay/cache writes, deletes, commits, resets, point reads, prefix scans and First/Next scripts over a small alphabet with prefix relations; " +
-		"distinct non-trivial = distinct (store, overlay, cache) contents reached with at least two layers non-empty")
+		"(d) OverlayDB / CacheDB iterators kept open and stepped (First/Next) while the buffers and the store are written in between (the buffer side is live, the store side a snapshot); " +
+		"distinct non-trivial = distinct (store, overlay, cache) contents reached with at least two layers non-empty, and distinct live-iterator scenarios")
 	// (a) exhaustive store x overlay states over 4 keys
 	ks := []string{"0561", "056161", "0562", "05ff"}
 	n := 0
@@ -338,6 +497,7 @@ func (f *layersFam) Gen(r *hx.Run) {
 		r.Do("oscan 0561")
 		r.Do("oscan -")
 		r.Do("oit 05 FNNNNNN")
+		r.Do(fmt.Sprintf("ofail 05 %d FNNNNNN", 1+code%5))
 		r.Do("cscan -")
 		for _, k := range ks {
 			r.Do("oget " + k)
@@ -432,8 +592,14 @@ func (f *layersFam) Gen(r *hx.Run) {
 				r.Do("cscan " + cachePrefixes[r.Rng.Intn(len(cachePrefixes))])
 			case x < 80:
 				r.Do("sscan " + rawPrefixes[r.Rng.Intn(len(rawPrefixes))])
-			case x < 83:
+			case x < 82:
 				r.Do("oit " + rawPrefixes[r.Rng.Intn(len(rawPrefixes))] + " " + rndScript(r))
+			case x < 83:
+				sc := "F" + strings.Repeat("N", 2+r.Rng.Intn(8))
+				if r.Rng.Chance(1, 4) {
+					sc = rndScript(r)
+				}
+				r.Do(fmt.Sprintf("ofail %s %d %s", rawPrefixes[r.Rng.Intn(len(rawPrefixes))], r.Rng.Intn(6), sc))
 			case x < 86:
 				r.Do("cit " + cachePrefixes[r.Rng.Intn(len(cachePrefixes))] + " " + rndScript(r))
 			case x < 90:
@@ -463,6 +629,90 @@ func (f *layersFam) Gen(r *hx.Run) {
 			r.Nontrivial(fmt.Sprintf("rnd:%v:%v:%v", f.rs, f.ro, f.rc))
 		}
 		r.Hist(fmt.Sprintf("layers-nonempty.%d", b2i(len(f.rs) > 0)+b2i(len(f.ro) > 0)+b2i(len(f.rc) > 0)))
+	}
+	f.genLive(r)
+}
+
+// genLive: (d) iterators that stay open while the buffers (and the store) are written.
+func (f *layersFam) genLive(r *hx.Run) {
+	n := r.Pick(1500, 60000)
+	for c := 0; c < n; c++ {
+		r.Case(fmt.Sprintf("live-%d", c))
+		for i := 0; i < 2+r.Rng.Intn(8); i++ {
+			rk := rawKeys[r.Rng.Intn(len(rawKeys))]
+			switch r.Rng.Intn(3) {
+			case 0:
+				r.Do("sput " + rk + " 0a")
+			case 1:
+				r.Do("oput " + rk + " " + layVals[r.Rng.Intn(len(layVals))])
+			default:
+				r.Do("cput " + cacheKeys[r.Rng.Intn(len(cacheKeys))] + " " + layVals[r.Rng.Intn(len(layVals))])
+			}
+		}
+		cacheSide := r.Rng.Bool()
+		open, first, next := "ojopen", "ojfirst", "ojnext"
+		pfx := []string{"-", "05", "0561", "05ff"}[r.Rng.Intn(4)]
+		if cacheSide {
+			open, first, next = "cjopen", "cjfirst", "cjnext"
+			pfx = []string{"-", "61", "ff"}[r.Rng.Intn(3)]
+		}
+		r.Do(open + " " + pfx)
+		r.Do(first)
+		// a second iterator of the other layer, open at the same time over the same buffers
+		next2 := ""
+		if r.Rng.Chance(1, 3) {
+			if cacheSide {
+				r.Do("ojopen " + []string{"-", "05", "0561"}[r.Rng.Intn(3)])
+				r.Do("ojfirst")
+				next2 = "ojnext"
+			} else {
+				r.Do("cjopen " + []string{"-", "61"}[r.Rng.Intn(2)])
+				r.Do("cjfirst")
+				next2 = "cjnext"
+			}
+		}
+		steps := 3 + r.Rng.Intn(12)
+		for i := 0; i < steps; i++ {
+			rk := rawKeys[r.Rng.Intn(len(rawKeys))]
+			ck := cacheKeys[r.Rng.Intn(len(cacheKeys))]
+			v := layVals[r.Rng.Intn(len(layVals))]
+			switch x := r.Rng.Intn(100); {
+			case x < 40:
+				if next2 != "" && r.Rng.Bool() {
+					r.Do(next2)
+				} else {
+					r.Do(next)
+				}
+			case x < 60:
+				r.Do("oput " + rk + " " + v)
+			case x < 68:
+				r.Do("odel " + rk)
+			case x < 80:
+				if cacheSide {
+					r.Do("cput " + ck + " " + v)
+				} else {
+					r.Do("oput 05" + strings.TrimPrefix(ck, "-") + " " + v)
+				}
+			case x < 85:
+				if cacheSide {
+					r.Do("cdel " + ck)
+				} else {
+					r.Do("odel 05" + strings.TrimPrefix(ck, "-"))
+				}
+			case x < 92:
+				r.Do("sput " + rk + " 0c") // the store side of an open iterator is a snapshot
+			case x < 95:
+				r.Do("sdel " + rk)
+			case x < 97:
+				r.Do(first)
+			default:
+				r.Do("ccommit")
+			}
+		}
+		for i := 0; i < 4; i++ {
+			r.Do(next)
+		}
+		r.Nontrivial(fmt.Sprintf("live:%v:%s:%d", cacheSide, pfx, steps))
 	}
 }
 
